@@ -128,7 +128,6 @@ func (c *Ctx) ruleSessionOptionsRefreshed(rule string, only map[string]bool, min
 	}
 }
 
-
 // isParamValue: v is the parameter itself or a load of the cell the parameter was spilled to
 // (parameters captured by a closure live in a heap cell that is only ever stored once).
 func isParamValue(v ssa.Value, p *ssa.Parameter) bool {
